@@ -16,6 +16,7 @@ import (
 	"strings"
 	"sync/atomic"
 	"time"
+	"unicode/utf8"
 
 	"github.com/la5nta/wl2k-go/transport"
 )
@@ -417,6 +418,19 @@ func parseProposalAnswer(str string, props []*Proposal, l *log.Logger) error {
 	return nil
 }
 
+// headerTitle returns the title for the transfer header: word-encoded since the field must be
+// ASCII-only, and shortened by whole characters until the encoded form is at most max bytes (a
+// long non-ASCII subject grows beyond what the one byte header length can express).
+func headerTitle(title string, max int) string {
+	encoded := mime.QEncoding.Encode("utf-8", title)
+	for len(encoded) > max && len(title) > 0 {
+		_, size := utf8.DecodeLastRuneInString(title)
+		title = title[:len(title)-size]
+		encoded = mime.QEncoding.Encode("utf-8", title)
+	}
+	return encoded
+}
+
 func (s *Session) writeCompressed(rw io.ReadWriter, p *Proposal) (err error) {
 	s.log.Printf("Transmitting [%s] [offset %d]", p.title, p.offset)
 
@@ -427,9 +441,9 @@ func (s *Session) writeCompressed(rw io.ReadWriter, p *Proposal) (err error) {
 	writer := bufio.NewWriter(rw)
 
 	var (
-		title    = mime.QEncoding.Encode("utf-8", p.title) // Word-encode the title since this field must be ASCII-only
+		title    = headerTitle(p.title, 255-6-2) // Leave room for the longest offset (6 bytes) and the two NULs
 		offset   = fmt.Sprintf("%d", p.offset)
-		length   = len(title) + len(offset) + 2
+		length   = len(title) + len(offset) + 2 // Must fit in one byte
 		checksum int64
 	)
 
